@@ -57,9 +57,9 @@ pub fn plan_for(prop: &str, tier: &str) -> Plan {
         }
         "C03" => {
             p.scenarios = if q {
-                sc(&[("fig8-div", 1), ("fig8", 1), ("fig8-div", 2), ("elect-pvcq", 1), ("elect-prio", 1), ("elect-stale", 0), ("xfer", 0), ("xfer-abort", 0)])
+                sc(&[("fig8-div", 1), ("fig8", 1), ("fig8-div", 2), ("elect-pvcq", 1), ("elect-prio", 1), ("elect-stale", 0), ("elect-prio-stale", 0), ("xfer", 0), ("xfer-abort", 0)])
             } else {
-                sc(&[("fig8-div", 1), ("fig8", 1), ("fig8-div", 2), ("elect-pvcq", 1), ("elect-prio", 1), ("elect-stale", 0), ("xfer", 0), ("xfer-abort", 0), ("fig8-div", 3), ("elect-prio", 3), ("xfer-abort", 1), ("xfer", 1), ("fig8", 2), ("xfer-abort", 2), ("fig8", 3)])
+                sc(&[("fig8-div", 1), ("fig8", 1), ("fig8-div", 2), ("elect-pvcq", 1), ("elect-prio", 1), ("elect-stale", 0), ("elect-prio-stale", 0), ("xfer", 0), ("xfer-abort", 0), ("fig8-div", 3), ("elect-prio", 3), ("xfer-abort", 1), ("xfer", 1), ("fig8", 2), ("xfer-abort", 2), ("fig8", 3)])
             };
             p.required_stats = vec![Stat::LeadersSeen, Stat::VotesGranted, Stat::PreVotesGranted, Stat::CommitAdvances];
             p.explanation = "explicit-state exploration; (a) every leader's log checked against the registry of entries committed in earlier terms after every API call, (b) every generated vote / pre-vote grant checked against the voter's own last (term, index) in its pre-state".into();
@@ -84,9 +84,9 @@ pub fn plan_for(prop: &str, tier: &str) -> Plan {
         }
         "C06" => {
             p.scenarios = if q {
-                sc(&[("crash2", 1), ("crash3", 1), ("crash2-async", 1), ("crash2-async-loose", 1), ("elect-stale-nosync", 0), ("stale", 0), ("stale-lazy", 0), ("stale-async", 0), ("crash3-lazy", 1)])
+                sc(&[("crash2", 1), ("crash3", 1), ("crash2-async", 1), ("crash2-async-loose", 1), ("elect-stale-nosync", 0), ("stale", 0), ("stale-lazy", 0), ("stale-async", 0), ("snap-req", 0), ("crash3-lazy", 1)])
             } else {
-                sc(&[("crash2", 1), ("crash3", 1), ("crash2-async", 1), ("crash2-async-loose", 1), ("elect-stale-nosync", 0), ("stale", 0), ("stale-lazy", 0), ("stale-async", 0), ("crash3-lazy", 1), ("crash2", 3), ("crash3", 2), ("stale-lazy", 1), ("stale-async", 1), ("crash3-async", 1), ("crash2-async-loose", 2), ("elect", 2), ("crash3", 3)])
+                sc(&[("crash2", 1), ("crash3", 1), ("crash2-async", 1), ("crash2-async-loose", 1), ("elect-stale-nosync", 0), ("stale", 0), ("stale-lazy", 0), ("stale-async", 0), ("snap-req", 0), ("crash3-lazy", 1), ("crash2", 3), ("crash3", 2), ("stale-lazy", 1), ("stale-async", 1), ("crash3-async", 1), ("crash2-async-loose", 2), ("elect", 2), ("crash3", 3)])
             };
             p.required_stats = vec![Stat::MsgsReleased, Stat::AcksReleased, Stat::VotesGranted, Stat::Crashes, Stat::Restarts];
             p.explanation = "explicit-state exploration over every crash point of the Ready round (after ready(), after k of the writes, after fsync, after persisted sends, after advance) in sync, async and lazy application modes; every released message checked against the node's durable disk at release time; one vote per term across incarnations; term monotone".into();
@@ -102,9 +102,9 @@ pub fn plan_for(prop: &str, tier: &str) -> Plan {
         }
         "C08" => {
             p.scenarios = if q {
-                sc(&[("read", 1), ("read-cc", 0), ("read", 2)])
+                sc(&[("read", 1), ("read-cc", 0), ("read-lagf", 2), ("read", 2)])
             } else {
-                sc(&[("read", 1), ("read-cc", 0), ("read", 2), ("read-nofwd", 2), ("read", 3), ("read-cc", 1), ("read", 4), ("read", 5)])
+                sc(&[("read", 1), ("read-cc", 0), ("read-lagf", 2), ("read", 2), ("read-nofwd", 2), ("read", 3), ("read-cc", 1), ("read", 4), ("read", 5)])
             };
             p.required_stats = vec![Stat::ReadStates];
             p.explanation = "explicit-state exploration; ghost max commit index over all nodes recorded when a read is issued; every ReadState in any Ready must be returned at the issuer with index >= that value".into();
@@ -140,9 +140,9 @@ pub fn plan_for(prop: &str, tier: &str) -> Plan {
         }
         "C15" => {
             p.scenarios = if q {
-                sc(&[("snap", 1), ("snap-joint", 0), ("snap", 2)])
+                sc(&[("snap", 1), ("snap-joint", 0), ("snap-req", 0), ("snap", 2)])
             } else {
-                sc(&[("snap", 1), ("snap-joint", 0), ("snap", 2), ("snap-joint", 1), ("snap", 3), ("snap-joint", 2), ("snap", 4)])
+                sc(&[("snap", 1), ("snap-joint", 0), ("snap-req", 0), ("snap", 2), ("snap-req", 1), ("snap-joint", 1), ("snap", 3), ("snap-joint", 2), ("snap", 4)])
             };
             p.required_stats = vec![Stat::SnapshotsInstalled, Stat::SnapshotsSent];
             p.explanation = "explicit-state exploration over compaction points, lost/duplicated/stale/reordered MsgSnapshot, status reports, follower crash around the install; install / ignore / fast-forward post-conditions and the leader's send condition as pre/post relations".into();
@@ -159,18 +159,18 @@ pub fn plan_for(prop: &str, tier: &str) -> Plan {
         }
         "C17" => {
             p.scenarios = if q {
-                sc(&[("xfer", 0), ("xfer-lag", 0), ("xfer-abort", 0), ("xfer-pipe", 0), ("xfer", 1)])
+                sc(&[("xfer", 0), ("xfer-lag", 0), ("xfer-abort", 0), ("xfer-pipe", 0), ("xfer-lag-cc", 0), ("xfer", 1)])
             } else {
-                sc(&[("xfer", 0), ("xfer-lag", 0), ("xfer-abort", 0), ("xfer-pipe", 0), ("xfer", 1), ("xfer-pipe", 1), ("xfer-abort", 1), ("xfer-pvcq", 1), ("xfer-lag", 1), ("xfer-abort", 2), ("xfer", 2), ("xfer", 3)])
+                sc(&[("xfer", 0), ("xfer-lag", 0), ("xfer-abort", 0), ("xfer-pipe", 0), ("xfer-lag-cc", 0), ("xfer", 1), ("xfer-pipe", 1), ("xfer-abort", 1), ("xfer-pvcq", 1), ("xfer-lag", 1), ("xfer-abort", 2), ("xfer", 2), ("xfer", 3)])
             };
             p.required_stats = vec![Stat::TransfersStarted, Stat::TimeoutNowSent, Stat::ProposalsRefused];
             p.explanation = "explicit-state exploration over all targets (voters, learner, unknown id, the leader itself), repeated and competing requests at leader and follower, lagging target, message loss; MsgTimeoutNow only to a caught-up target, proposals refused while pending, abort within election_tick leader ticks or when the target leaves the voters, bad targets are no-ops".into();
         }
         "C20" => {
             p.scenarios = if q {
-                sc(&[("elect", 1), ("fig8-div", 1), ("crash2", 1), ("crash2-async", 1), ("crash2-async-loose", 1), ("member-rm1", 0), ("member-joint", 1), ("lease", 1), ("snap", 0), ("snap-lazy", 0), ("snap-lag", 0), ("xfer-pipe", 0), ("read", 1), ("stale", 0), ("stale-lazy", 0), ("stale-async", 0), ("repl-i1-sz", 1), ("repl-mix", 0), ("xfer", 0), ("xfer-abort", 0), ("flow", 0), ("flow-cap", 0), ("member", 0)])
+                sc(&[("elect", 1), ("fig8-div", 1), ("crash2", 1), ("crash2-async", 1), ("crash2-async-loose", 1), ("member-rm1", 0), ("member-joint", 1), ("lease", 1), ("snap", 0), ("snap-lazy", 0), ("snap-lag", 0), ("snap-req", 0), ("xfer-pipe", 0), ("xfer-lag-cc", 0), ("read", 1), ("stale", 0), ("stale-lazy", 0), ("stale-async", 0), ("repl-i1-sz", 1), ("repl-mix", 0), ("xfer", 0), ("xfer-abort", 0), ("flow", 0), ("flow-cap", 0), ("member", 0)])
             } else {
-                sc(&[("elect", 1), ("fig8-div", 1), ("crash2", 1), ("crash2-async", 1), ("crash2-async-loose", 1), ("member-rm1", 0), ("member-joint", 1), ("lease", 1), ("snap", 0), ("snap-lazy", 0), ("snap-lag", 0), ("xfer-pipe", 0), ("read", 1), ("stale", 0), ("stale-lazy", 0), ("stale-async", 0), ("repl-i1-sz", 1), ("repl-mix", 0), ("xfer", 0), ("xfer-abort", 0), ("flow", 0), ("flow-cap", 0), ("member", 0), ("member-rm1-lazy", 1), ("member-rm1-async", 1), ("read-lease", 1), ("read-nofwd", 1), ("repl-fetch", 1), ("repl-gc", 1), ("elect-prio", 1), ("member-mix", 1), ("crash3", 1), ("repl-batch", 1), ("snap", 1), ("stale-lazy", 1), ("stale-async", 1), ("member", 1), ("crash3-lazy", 1), ("crash2-async-loose", 2), ("crash3-async", 1), ("fig8", 1), ("xfer", 1), ("flow", 1)])
+                sc(&[("elect", 1), ("fig8-div", 1), ("crash2", 1), ("crash2-async", 1), ("crash2-async-loose", 1), ("member-rm1", 0), ("member-joint", 1), ("lease", 1), ("snap", 0), ("snap-lazy", 0), ("snap-lag", 0), ("snap-req", 0), ("xfer-pipe", 0), ("xfer-lag-cc", 0), ("read", 1), ("stale", 0), ("stale-lazy", 0), ("stale-async", 0), ("repl-i1-sz", 1), ("repl-mix", 0), ("xfer", 0), ("xfer-abort", 0), ("flow", 0), ("flow-cap", 0), ("member", 0), ("member-rm1-lazy", 1), ("member-rm1-async", 1), ("read-lease", 1), ("read-nofwd", 1), ("repl-fetch", 1), ("repl-gc", 1), ("elect-prio", 1), ("member-mix", 1), ("crash3", 1), ("repl-batch", 1), ("snap", 1), ("stale-lazy", 1), ("stale-async", 1), ("member", 1), ("crash3-lazy", 1), ("crash2-async-loose", 2), ("crash3-async", 1), ("fig8", 1), ("xfer", 1), ("flow", 1)])
             };
             p.required_stats = vec![Stat::BadMsgOffered, Stat::ReadyChecked, Stat::MsgsReleased];
             p.explanation = "every API call of every explored execution runs under catch_unwind: a panic, failed assert!/debug_assert!, fatal!, index out of bounds or arithmetic overflow (debug-assertions and overflow-checks are on) is a violation; in every state local-only message types and responses from non-members are offered to step() on a clone and must be rejected with the documented error without changing the state digest".into();
